@@ -475,11 +475,15 @@ func TestVerif_C39(t *testing.T) {
 				r.Violationf(ck, "C39|panic|"+c.id, detail, "restic %s panicked: %s", c.id, pmsg)
 			}
 			if log.reads > 0 {
-				r.Nontrivial(ck)
+				r.Nontrivial(sn + "|" + c.id)
 			}
 			res := "ok"
 			if cerr != nil {
 				res = "error"
+				r.Note("state %s: `%s` failed: %.160s", sn, c.id, cerr.Error())
+			}
+			if log.reads == 0 {
+				r.Note("state %s: `%s` did not read from the repository (trivial)", sn, c.id)
 			}
 			r.Outcome(fmt.Sprintf("%s|%s|would=%v|writes=%d", c.name, res, strings.Contains(strings.ToLower(stdout), "would"), len(log.writes)))
 
